@@ -5,6 +5,7 @@ package visor
 import (
 	"errors"
 
+	"github.com/skycoin/skycoin/src/cipher"
 	"github.com/skycoin/skycoin/src/coin"
 	"github.com/skycoin/skycoin/src/visor/dbutil"
 )
@@ -21,3 +22,17 @@ func vpModelCoinHours(uo *coin.UxOut, t uint64) (uint64, error) {
 
 // vpModelDBView: (*dbutil.DB).View(name, f) runs f inside a read transaction.
 func vpModelDBView(db *dbutil.DB, name string, f func(*dbutil.Tx) error) error { return f(nil) }
+
+// vpMark: the harnesses tag a transaction by the hours of its first output
+func vpMark(t *coin.Transaction) int { return int(t.Out[0].Hours) }
+
+// transaction ids: concrete and pairwise distinct (tag byte), sizes from the shape
+func vpModelTxnHashTag(t *coin.Transaction) cipher.SHA256 {
+	var h cipher.SHA256
+	h[0], h[1] = t.InnerHash[0], 0x55
+	return h
+}
+
+func vpModelTxnSizeHashTag(t *coin.Transaction) (uint32, cipher.SHA256, error) {
+	return uint32(49 + 65*len(t.Sigs) + 32*len(t.In) + 37*len(t.Out)), vpModelTxnHashTag(t), nil
+}
